@@ -172,6 +172,33 @@ pub fn gen_history(rng: &mut Rng, g: &Generated, len: usize, cmds: &[&[&str]]) -
         args: rng.pick(cmds).iter().map(|s| s.to_string()).collect(),
     };
     steps.push(cmd(rng));
+    // Template "a dependency appears, then its target changes" (1 in 3): a user file that does
+    // not mention the definition yet is built, then starts to use it (the definition file is
+    // a cache hit in that build), then the definition changes. By convention the last variant
+    // of a user slot is the one without the reference and variant 0 has it.
+    if rng.chance(1, 3) {
+        let multi: Vec<&Unit> = g.units.iter().filter(|u| u.slots.len() >= 2).collect();
+        if !multi.is_empty() {
+            let u = *rng.pick(&multi);
+            let def = &u.slots[0];
+            let user = &u.slots[1 + rng.below(u.slots.len() - 1)];
+            if files.contains_key(def.path) && files.contains_key(user.path) {
+                let noref = user.variants[user.variants.len() - 1].to_string();
+                files.insert(user.path.to_string(), noref.clone());
+                steps.push(Step::Write { path: user.path.to_string(), content: noref });
+                steps.push(cmd(rng));
+                let with_ref = user.variants[0].to_string();
+                files.insert(user.path.to_string(), with_ref.clone());
+                steps.push(Step::Write { path: user.path.to_string(), content: with_ref });
+                steps.push(cmd(rng));
+                let v = 1 + rng.below(def.variants.len() - 1);
+                let content = def.variants[v].to_string();
+                files.insert(def.path.to_string(), content.clone());
+                steps.push(Step::Write { path: def.path.to_string(), content });
+                steps.push(cmd(rng));
+            }
+        }
+    }
     let mut toml = g.project.toml.clone();
     while steps.len() < len {
         let r = rng.below(100);
